@@ -410,6 +410,13 @@ func (x *exec) mergeStates(states []*State) *State {
 			}
 		}
 	}
+	// call sites seen: union (cover check; a merged state stands for all its arrivals)
+	g.sites = map[string]bool{}
+	for _, s := range states {
+		for k := range s.sites {
+			g.sites[k] = true
+		}
+	}
 	// path description: common prefix
 	n := len(base.path)
 	for _, s := range states[1:] {
